@@ -29,6 +29,8 @@ CFG = {
                      p_explicit_provider=0.2, p_explicit_self_arg=0.3, p_reuse_cut_name=0.1, fuel=20000),
 }
 
+GEN_FAILURES = [0]
+
 FORMS14 = ['send', 'recv', 'sel', 'case', 'new', 'call', 'close', 'fwd', 'split', 'wait', 'cast', 'shift', 'drop',
            'print']
 RULES = ['1R', '1L', '*R', '*L', '-*R', '-*L', '+R', '+L', '&R', '&L', 'dnR', 'dnL', 'upR', 'upL', 'id+', 'id-',
@@ -251,7 +253,8 @@ def gen_program(rng, size='quick', closed=True, want_terminating=True, collide=N
         g = Gen(sub, size, closed, want_terminating, collide)
         try:
             decls, roots, unused_neg = g.generate()
-        except RecursionError:
+        except (RecursionError, AssertionError):
+            GEN_FAILURES[0] += 1      # a draw the search could not complete (reported by the self-test)
             continue
         ref = None
         if closed and getattr(g, 'diverges', False):
